@@ -340,7 +340,7 @@ func deliveryDrive(args []string) error {
 			// deliver what Reader delivers on the stream the opener hands out (this pair of events comes last: it has its own reference)
 			if ii < 6 && len(in.Data) > 0 {
 				for ci, cut := range []int{zb.Len() / 2, zb.Len() - 5} {
-					if cut <= 10 {
+					if cut <= 4 {
 						continue
 					}
 					tgz := filepath.Join(tmp, "cut"+strconv.Itoa(sid)+"_"+strconv.Itoa(ci)+".txt.gz")
@@ -440,7 +440,7 @@ func faultDrive(args []string) error {
 			tw.emit(crossEvent{Sid: sid, Fmt: fd.name, Op: "clean", Cfg: "mem", WF: true, Ids: tab.ids(clean), Capped: capped, Panic: panicked,
 				Input: ints(in.Data[:min(len(in.Data), 300)])})
 			limit := len(clean) + 64
-			if in.WellFormed && len(in.Data) > 40 && !long { // the same law for File on a gzip copy cut in the middle / before its trailer
+			if in.WellFormed && len(in.Data) > 12 && !long { // the same law for File on a gzip copy cut in the middle / before its trailer
 				zb := &bytes.Buffer{}
 				zw := gzip.NewWriter(zb)
 				zw.Write(in.Data)
@@ -691,6 +691,7 @@ func stopDrive(args []string) error {
 	for fi, fd := range formatDefs {
 		fd := fd
 		ins := crossInputs(fd.name, int64(8000+100*fi), nIn, nIn)
+		ncut := 0
 		for ii, in := range ins {
 			in := in
 			errLast := fd.name != "sam" && fd.name != "samh"
@@ -709,7 +710,8 @@ func stopDrive(args []string) error {
 			}
 			targets = append(targets, stopTarget{name: fd.name + "/File", errLast: errLast,
 				run: func(v func(gItem) bool) (int, bool) { return fd.file(path, v) }})
-			if ii < 3 && len(in.Data) > 40 { // a file that opens and then fails to read: a gzip copy cut in the middle
+			if ncut < 3 && len(in.Data) > 12 { // a file that opens and then fails to read: a gzip copy cut in the middle
+				ncut++
 				zb := &bytes.Buffer{}
 				zw := gzip.NewWriter(zb)
 				zw.Write(in.Data)
@@ -917,6 +919,9 @@ func stopDrive(args []string) error {
 		if len(full) > 60 { // (a quadratic number of stop runs: long inputs are stopped at a sparse set of positions)
 			if !capped && !panicked {
 				stopLong(tw, sid, &tg, newRand(int64(8990+sid)))
+			} else { // a run that was cut off at the item cap (or panicked): its first items are still evidence (an error item in the middle)
+				tw.emit(crossEvent{Sid: sid, Fmt: tg.name, Op: "runaway", Cfg: "ordered", WF: tg.errLast, Ids: tab.ids(full[:min(len(full), 64)]),
+					Capped: capped, Panic: panicked, Input: []int{}})
 			}
 			continue
 		}
